@@ -212,7 +212,13 @@ def check_cat(ctx, spec):
         for col, clause in (("x", "second-tree-rigidly-translated"), ("y", "second-tree-rigidly-translated"), ("z", "second-tree-rigidly-translated"),
                             ("r", "second-tree-attributes-kept"), ("type", "second-tree-attributes-kept")):
             got = np.array([res.get_ndata(col)[pos_of[("b", j)][0]] for j in want_b], dtype=np.float64)
-            want = np.array([o2[col][j] for j in want_b], dtype=np.float64)
+            src = np.array(o2[col], dtype=np.float64)
+            if col == "type" and pid2[node2] != -1:
+                # joining at a non-root node re-roots the copy of the second tree there; the property's own
+                # re-rooting clause exchanges the types of the old and the new root (DESIGN.md section 9)
+                root2 = pid2.index(-1)
+                src[root2], src[node2] = src[node2], src[root2]
+            want = np.array([src[j] for j in want_b], dtype=np.float64)
             if col in "xyz":
                 want = want + delta["xyz".index(col)]
             if len(want_b) and not np.allclose(got, want, rtol=0, atol=1e-6):
